@@ -303,3 +303,12 @@ def run(prog, chk):
         idx_sites = [(b.id, i, x) for (b, i, r, x) in vf.eval_sites("index") if path(strip(x.get("base"))) == "is_allowed"
                      and const(x.get("idx")) is None]
         r3.info("is_allowed-bound", "%d variable-index reads" % len(idx_sites))
+
+    # the refusal of values that contain a text-field delimiter rests on the analyser's contains_text_delim statistic
+    from . import c18
+    r4 = chk.rule("R4-text-delimiter-statistic", "write_char refuses a CIF 1.1 text field when analysis.contains_text_delim is set; "
+                  + c18.ACC_DESC, primary=False, floor=3)
+    wc = prog.fn("write_char")
+    if not any((path(x) or "").endswith("contains_text_delim") for (b, i, r, n) in wc.eval_sites() for x in [n] if n.get("k") == "member"):
+        raise Broken("write_char no longer consults contains_text_delim")
+    c18.accumulator_rule(prog, r4)
